@@ -209,6 +209,10 @@ def pyval(v, tb, depth=0):
             return x
         if n in tb:
             return pyval(tb[n], tb, depth + 1)
+        # the size of a struct / dtype held under a name (`self._Str.size`, `self._rdtype.itemsize`): computed from the format text
+        for suf in SIZE_ATTRS:
+            if n.endswith("." + suf) and len(n) > len(suf) + 1:
+                return _size_of(suf, pyval(F.sym(n[:-len(suf) - 1]), tb, depth + 1))
         return _NOT
     p = C.fn_parts(v)
     if p is None:
@@ -260,8 +264,10 @@ def pyval(v, tb, depth=0):
             return _NOT
         # a number interpolated into a text (f"{e}f{nbytes}") prints as its decimal digits
         return (str(a) if not isinstance(a, str) else a) + (str(b) if not isinstance(b, str) else b)
-    if nm in ("call:np.dtype", "call:numpy.dtype", "call:struct.Struct", "structof") and len(args) >= 1:
+    if nm in ("call:np.dtype", "call:numpy.dtype", "call:dtype", "call:struct.Struct", "call:Struct", "structof") and len(args) >= 1:
         return pyval(args[0], tb, depth + 1)
+    if nm in SIZE_CALLS and len(args) == 1:
+        return _size_of(SIZE_CALLS[nm], pyval(args[0], tb, depth + 1))
     if nm == "call:str" and len(args) == 1:
         x = pyval(args[0], tb, depth + 1)
         return _NOT if x is _NOT else str(x)
@@ -294,24 +300,59 @@ def pyval(v, tb, depth=0):
     return _NOT
 
 
+SIZE_ATTRS = ("size", "itemsize")
+SIZE_CALLS = {"attr:size": "size", "attr:itemsize": "itemsize", "call:struct.calcsize": "size", "call:calcsize": "size"}
+
+
+def _size_of(what, text):
+    """Struct(text).size / struct.calcsize(text)  (what == 'size'),  np.dtype(text).itemsize  (what == 'itemsize'): an integer, from the
+    format text alone; K.NOT when the text is not a format of that family (the `.size` of anything else is not a number of bytes)"""
+    if not isinstance(text, str):
+        return _NOT
+    if what == "size":
+        sz = struct_size(text)
+        if sz is not None and sz.is_const() and sz.const_value().denominator == 1:
+            return int(sz.const_value())
+        return _NOT
+    dt = dtype_of(text)
+    return dt[2] if dt is not None else _NOT
+
+
+def resolved_number(v):
+    """a byte count the rules may compare: a + b * W built from integers and the width symbols only (nothing opaque left in it)"""
+    if v is None or is_unknown(v) or isinstance(v, tuple) or not hasattr(v, "is_const"):
+        return False
+    words = {C.sym_name(w) for w in WORD.values()}
+    return all(d[0] == "s" and d[1] in words for d in C.walk_atoms(v))
+
+
 def numval(v, tb):
     """the formula with every attribute of the table that is a number substituted (symbols that are not in the table stay)"""
     if v is None or is_unknown(v) or isinstance(v, tuple):
         return None
     mp = {}
     for d in C.walk_atoms(v):
-        if d[0] == "s" and d[1] in tb and not is_unknown(tb[d[1]]) and not isinstance(tb[d[1]], tuple) and tb[d[1]] is not None:
-            if tb[d[1]].is_const():
-                mp[d[1]] = tb[d[1]]
+        if d[0] == "s" and d[1] not in mp and d[1][:1] not in "'\"":
+            # an attribute of the table (or the size of a struct / dtype it holds) that denotes an integer
+            x = pyval(F.sym(d[1]), tb)
+            if isinstance(x, int) and not isinstance(x, bool):
+                mp[d[1]] = F.const(x)
     try:
         out = v.subs(mp) if mp else v
     except Unsupported:
         return None
-    if any(d[0] == "fn" and d[1] in ("attr:size", "call:struct.calcsize") for d in C.walk_atoms(out)):
-        # the size of a struct whose format is known (Struct(...).size, struct.calcsize(...))
+    if any(d[0] == "fn" and (d[1] in SIZE_CALLS or d[1] == "idx") for d in C.walk_atoms(out)):
+        # the size of a struct / dtype whose format is known (Struct(...).size, struct.calcsize(...), np.dtype(...).itemsize); an element of
+        # a tuple of known length (a helper that returns (numpy format, struct format, bytes per value))
         def post(name, args):
-            if name in ("attr:size", "call:struct.calcsize") and len(args) == 1 and not isinstance(args[0], str):
-                return struct_size(strval(args[0], tb))
+            if name in SIZE_CALLS and len(args) == 1 and not isinstance(args[0], str):
+                x = _size_of(SIZE_CALLS[name], strval(args[0], tb))
+                return F.const(x) if x is not _NOT else None
+            if name == "idx" and len(args) == 2 and not any(isinstance(a, str) for a in args) and args[1].is_const():
+                q = C.fn_parts(args[0])
+                k = args[1].const_value()
+                if q is not None and q[0] == "tuple" and k.denominator == 1 and -len(q[1]) <= int(k) < len(q[1]) and not isinstance(q[1][int(k)], str):
+                    return q[1][int(k)]
             return None
         out = C.rewrite(out, post=post)
     if mp and any(d[0] == "fn" and d[1] == "phi" for d in C.walk_atoms(out)):
